@@ -3,6 +3,9 @@
    arithmetic on component lists, the load-buffer flush at every non-load item, and
    the specification `flat_file` ("paste every imported file in place of its first
    import"), keyed by the true identity of a file (its canonical absolute path).
+   Strengthening round 3: the shared load tokenizer (`Lexer.load_tokenizer`, switched by
+   `__update_load`) is the field `cur`; a buffered load statement remembers the file it was
+   read from, a batch the file of the tokenizer it is parsed with (EvBatch tok l).
 
    No proofs here (Proofs/Import.v). *)
 From Coq Require Import String List Bool Arith Ascii.
@@ -85,26 +88,36 @@ Arguments Ok {A} a. Arguments Err {A} e.
 
 (* ------------------------------------------------------------------ the code *)
 
+(* strengthening round 3: a load statement remembers the file it was READ from; the shared `load_tokenizer`
+   (Lexer.load_tokenizer, switched by `__update_load`) is the field `cur`; a batch records the tokenizer
+   file it was PARSED with.  That the two coincide is C17_load_batch_file. *)
+Record lstmt := mkL { l_id : nat; l_file : apath }.
+
 Inductive event :=
 | EvOpen (p : apath)             (* the file with this identity is read and tokenised *)
 | EvDef (n : nat)                (* parse_func / parse_new / parse_class / decorated function *)
-| EvBatch (l : list nat).        (* parse_current_load on a non-empty buffer *)
+| EvBatch (tok : apath) (l : list lstmt).
+                                 (* parse_current_load on a non-empty buffer, load_tokenizer.file_path = tok *)
 
 Record st := mkSt {
   imported : list rpath;         (* DataPack._imported *)
-  pending : list nat;            (* DataPack.load_function, newest first *)
+  pending : list lstmt;          (* DataPack.load_function, newest first *)
+  cur : apath;                   (* Lexer.load_tokenizer.file_path (and raw_string / file_string with it) *)
   out : list event               (* newest first *)
 }.
-Definition st0 : st := mkSt [] [] [].
+Definition st0 : st := mkSt [] [] [] [].
 
 Definition flush (s : st) : st :=
   match pending s with
   | [] => s
-  | _ => mkSt (imported s) [] (EvBatch (rev (pending s)) :: out s)
+  | _ => mkSt (imported s) [] (cur s) (EvBatch (cur s) (rev (pending s)) :: out s)
   end.
-Definition push (n : nat) (s : st) : st := mkSt (imported s) (n :: pending s) (out s).
-Definition emit (e : event) (s : st) : st := mkSt (imported s) (pending s) (e :: out s).
-Definition mark (k : rpath) (s : st) : st := mkSt (k :: imported s) (pending s) (out s).
+Definition push (f : apath) (n : nat) (s : st) : st :=
+  mkSt (imported s) (mkL n f :: pending s) (cur s) (out s).
+Definition emit (e : event) (s : st) : st := mkSt (imported s) (pending s) (cur s) (e :: out s).
+Definition mark (k : rpath) (s : st) : st := mkSt (k :: imported s) (pending s) (cur s) (out s).
+(* Lexer.__update_load(file_path_str, raw_string) *)
+Definition set_cur (f : apath) (s : st) : st := mkSt (imported s) (pending s) f (out s).
 Definition is_imported (k : rpath) (s : st) : bool := existsb (rpath_eqb k) (imported s).
 
 (* Pinned = /repo before the C17 fix; Repaired = with fixes/C17-import-key-and-wildcard.patch *)
@@ -128,21 +141,23 @@ Section Code.
     | Repaired => resolve cwd (join (parent self) (mkR abs (pynorm raw)))
     end.
 
-  Fixpoint each_file (rec : rpath -> st -> result st) (fl : list apath) (s : st) : result st :=
+  (* `for new_path in folder.glob(..): self.parse_file(new_path); self.__update_load(file_path_str, raw_string)` *)
+  Fixpoint each_file (rec : rpath -> st -> result st) (id : apath) (fl : list apath) (s : st) : result st :=
     match fl with
     | [] => Ok s
-    | q :: r => match rec (absr q) s with Ok s' => each_file rec r s' | Err e => Err e end
+    | q :: r => match rec (absr q) s with Ok s' => each_file rec id r (set_cur id s') | Err e => Err e end
     end.
 
+  (* id = file_path_str of the file being read = resolve cwd self *)
   Fixpoint parse_items (rec : rpath -> st -> result st) (self : rpath) (items : list item) (s : st)
     : result st :=
     match items with
     | [] => Ok (flush s)
-    | ILoad n :: r => parse_items rec self r (push n s)
+    | ILoad n :: r => parse_items rec self r (push (resolve cwd self) n s)
     | IDef n :: r => parse_items rec self r (emit (EvDef n) (flush s))
     | IImport abs raw :: r =>
         match rec (absr (import_target self abs raw)) (flush s) with
-        | Ok s' => parse_items rec self r s'
+        | Ok s' => parse_items rec self r (set_cur (resolve cwd self) s')
         | Err e => Err e
         end
     | IWild abs raw :: r =>
@@ -150,7 +165,7 @@ Section Code.
         match lookup ds d with
         | None => Err (EDirNotFound d)
         | Some fl =>
-            match each_file rec fl (flush s) with
+            match each_file rec (resolve cwd self) fl (flush s) with
             | Ok s' => parse_items rec self r s'
             | Err e => Err e
             end
@@ -167,7 +182,8 @@ Section Code.
           let id := resolve cwd self in
           match lookup t id with
           | None => Err (ENotFound id)
-          | Some items => parse_items (parse_file f) self items (emit (EvOpen id) (mark self s))
+          | Some items =>
+              parse_items (parse_file f) self items (set_cur id (emit (EvOpen id) (mark self s)))
           end
     end.
 End Code.
@@ -272,7 +288,7 @@ Definition items_of_event (e : event) : list fitem :=
   match e with
   | EvOpen _ => []
   | EvDef n => [FDef n]
-  | EvBatch l => map FLoad l
+  | EvBatch _ l => map (fun x => FLoad (l_id x)) l
   end.
 Definition items_of (evs : list event) : list fitem := flat_map items_of_event evs.
 
@@ -295,10 +311,48 @@ Section Consumer.
     match e with
     | EvOpen _ => s
     | EvDef n => on_def s n
-    | EvBatch l => on_batch s l
+    | EvBatch _ l => on_batch s (map l_id l)
     end.
   Definition consume (s : S) (evs : list event) : S := fold_left consume1 evs s.
 End Consumer.
+
+(* ------------------------------------------------------------------ strengthening round 3: the file of a load batch *)
+
+(* the load statement x is written in the file it claims to come from *)
+Definition written_in (t : tree) (x : lstmt) : Prop :=
+  exists items, lookup t (l_file x) = Some items /\ In (ILoad (l_id x)) items.
+(* a batch is parsed with the tokenizer of the file every one of its statements was read from *)
+Definition batch_file_ok (e : event) : Prop :=
+  match e with EvBatch tok l => Forall (fun x => l_file x = tok) l | _ => True end.
+Definition batch_ok (t : tree) (e : event) : Prop :=
+  match e with EvBatch tok l => Forall (fun x => l_file x = tok /\ written_in t x) l | _ => True end.
+
+(* what a FILE-SENSITIVE back end sees: every load statement together with the file whose tokenizer compiles it
+   (diagnostics, Debug.watch source lines, JMC.pythonFile's folder) *)
+Inductive sitem := SLoad (f : apath) (n : nat) | SDef (n : nat).
+Definition sitems_of_event (e : event) : list sitem :=
+  match e with
+  | EvOpen _ => []
+  | EvDef n => [SDef n]
+  | EvBatch _ l => map (fun x => SLoad (l_file x) (l_id x)) l
+  end.
+Definition sitems_of (evs : list event) : list sitem := flat_map sitems_of_event evs.
+Definition erase_file (i : sitem) : fitem := match i with SLoad _ n => FLoad n | SDef n => FDef n end.
+
+Section FileConsumer.
+  Variables (S : Type) (on_def : S -> nat -> S) (on_load : S -> apath -> nat -> S).
+  (* the code: every statement of a batch is compiled with the batch's tokenizer *)
+  Definition fconsume1 (s : S) (e : event) : S :=
+    match e with
+    | EvOpen _ => s
+    | EvDef n => on_def s n
+    | EvBatch tok l => fold_left (fun s x => on_load s tok (l_id x)) l s
+    end.
+  Definition fconsume (s : S) (evs : list event) : S := fold_left fconsume1 evs s.
+  (* the reference: every statement compiled with the tokenizer of its own file *)
+  Definition sstep (s : S) (i : sitem) : S :=
+    match i with SLoad f n => on_load s f n | SDef n => on_def s n end.
+End FileConsumer.
 
 (* no wildcard import anywhere in the tree *)
 Definition item_no_wild (i : item) : bool := match i with IWild _ _ => false | _ => true end.
